@@ -1083,9 +1083,8 @@ def extra_stages(ctx):
     _clear_hangs()
     plain_stage(ctx)
     sched_stage(ctx)
-    if not quick:
-        _clear_hangs()
-        debug_stage(ctx)
+    _clear_hangs()
+    debug_stage(ctx)
     _clear_hangs()
 
 
@@ -1143,23 +1142,48 @@ def plain_stage(ctx):
             break
 
 
+def debug_cases(rng, quick):
+    """legal histories for the DEBUG_BUILD run; hand-written first: per size class, carve n chunks from a fresh page, release
+    all n while it is still the working page (the page stays, alloc_count 0, its chunks on the free list), acquire again"""
+    cases = []
+    for cls in consts().get("BINS", [32, 64, 128, 256, 512]):
+        for n in (1, 2, min(5, per_page(cls) - 1)):
+            ops = ["new mt=0"] + [f"acq p{i} {cls}" for i in range(1, n + 1)] + [f"rel p{i}" for i in range(1, n + 1)]
+            ops += [f"acq p{i} {max(1, cls - 1)}" for i in range(10, 10 + n + 1)] + [f"rel p{i}" for i in range(10, 10 + n + 1)] + ["destroy"]
+            cases.append(Case(ops, {"debug": 1}))
+    cases += core.load_corpus(ID)
+    k = 40 if quick else 300
+    cases += [case_drain(rng) for _ in range(k)] + [case_random(rng, 60) for _ in range(k)]
+    cases += [case_cross(rng) for _ in range(k // 2)] + [case_parents(rng, par) for par in PARENTS for _ in range(3 if quick else 20)]
+    cases += fullpage_cases(rng, "quick")[::4 if quick else 1]
+    return cases
+
+
 def debug_stage(ctx):
-    """thorough tier: a slice of the cases on a DEBUG_BUILD library (the allocator's own AWS_ASSERTs active:
-    idx <= 4, bin->size >= size, page->bin == bin, alloc_count == 0 at clean-up); an abort is a violation"""
+    """the op stream once more on a DEBUG_BUILD library (-DDEBUG_BUILD: the library's own AWS_ASSERT / AWS_PRECONDITION /
+    AWS_POSTCONDITION active, as in the repository's Debug configuration).  Every history generated here is legal, so an
+    assertion that fires (abort) is a violation: the allocator refuses a history the property says it must serve."""
     try:
         exe = cbuild.build_harness(**dict(HARNESS, flavour="debug"))
     except cbuild.BuildError as e:
         ctx.machinery_broken("build (debug flavour): " + str(e)[:2000])
         return
-    cases = core.load_corpus(ID) + [case_drain(ctx.rng) for _ in range(300)] + [case_random(ctx.rng, 60) for _ in range(300)]
+    cases = debug_cases(ctx.rng, ctx.tier == "quick")
     c_out, _, crashes = core.run_both(ctx, cases, exe, None, timeout=TIMEOUT, c_env=C_ENV, stall_s=STALL_S)
     ctx.cov["debug_build_cases"] = len(cases)
+    reported = 0
     for i, c in enumerate(cases):
-        errs = ["crash: " + crashes[i][-600:]] if i in crashes else oracle(c, c_out.get(i, []))
+        errs = oracle(c, c_out.get(i, []))
+        if i in crashes:
+            tail = [l for l in crashes[i].splitlines() if "Fatal error condition" in l or "assert" in l.lower() or "ERROR" in l]
+            errs = ["the library aborted on a legal history (DEBUG_BUILD assertions active): " + (tail[0].strip() if tail else crashes[i][-300:])]
         if errs:
-            ctx.violation(f"debug-{ctx.seed}-{i}", {"ops": c.ops, "flavour": "debug", "clause": errs[:3]},
-                          "DEBUG_BUILD run (library assertions active): " + errs[0][:300])
-            break
+            ctx.violation(f"debug-{ctx.seed}-{i}", {"debug_ops": c.ops, "flavour": "debug", "clause": errs[:3],
+                                                   "observed": crashes.get(i, "")[-1500:]},
+                          "DEBUG_BUILD run: " + errs[0][:300])
+            reported += 1
+            if reported >= 2:
+                break
 
 
 def history_runs(ctx, exe):
@@ -1282,6 +1306,16 @@ def sched_stage(ctx):
 
 
 def replay(ctx, obj):
+    if "debug_ops" in obj:
+        exe = cbuild.build_harness(**dict(HARNESS, flavour="debug"))
+        rc, out, _ = core.run_stream([exe], "case 0\n" + "\n".join(obj["debug_ops"]) + "\n", 120, C_ENV, stall_s=RERUN_STALL_S)
+        print(out[-2500:])
+        errs = oracle(Case(obj["debug_ops"]), out.splitlines()[1:]) if rc == 0 else [f"the library aborted / crashed again (rc={rc}) on this legal history"]
+        if errs:
+            ctx.violation(f"replay-{ctx.seed}", {"debug_ops": obj["debug_ops"], "observed": out[-2000:]}, "replay on the DEBUG_BUILD library fails again: " + errs[0][:300])
+        else:
+            print("replay: the property held on this history (DEBUG_BUILD)")
+        return
     if "history_ops" in obj or "sched_ops" in obj:
         sched = "sched_ops" in obj
         exe = cbuild.build_harness(**(SCHED_HARNESS if sched else dict(HARNESS, flavour=obj.get("flavour", "plain") if obj.get("flavour") in ("plain", "asan") else "plain")))
